@@ -25,7 +25,7 @@ NShards == atoi(IOEnv.WOWM_NSHARDS)
 Shard   == atoi(IOEnv.WOWM_SHARD)
 NProf   == atoi(IOEnv.WOWM_NPROF)
 MaxLen  == atoi(IOEnv.WOWM_MAXLEN)
-Only    == IOEnv.WOWM_ONLY          \* "" or one message name
+Only    == IOEnv.WOWM_ONLY          \* "", one message name, or "@login" (all login messages)
 Deep    == IOEnv.WOWM_DEEP = "1"    \* thorough: more flag subsets / enumerators
 FaultMode == IF "WOWM_FAULTS" \in DOMAIN IOEnv THEN IOEnv.WOWM_FAULTS ELSE "0"       \* "0" | "c03" | "c04": also print fault records (see Fault families)
 FaultEvery == IF "WOWM_FAULT_EVERY" \in DOMAIN IOEnv THEN atoi(IOEnv.WOWM_FAULT_EVERY) ELSE 1  \* faults are derived from every n-th behaviour
@@ -61,7 +61,7 @@ Roots == {r \in [id : 1..Len(Objs), ctx : Ctxs, dir : {"client", "server"}] :
             /\ r.dir \in Dirs(o)
             /\ InCtx(o, r.ctx)
             /\ r.id % NShards = Shard
-            /\ (Only = "" \/ o.name = Only)}
+            /\ (Only = "" \/ o.name = Only \/ (Only = "@login" /\ ~r.ctx.world))}
 
 ---------------------------------------------------------------------------
 (* Frames and scopes *)
